@@ -332,9 +332,14 @@ type caseT struct {
 	setup []string // commands applied first (must succeed)
 	cmds  []string // the commands / the toml document under test
 	after []string // follow-up admin operations: "delDest <route> <idx>", "cmd <command>"
+	// maxAge: the bad_metrics_max_age setting the table is created with ("" = "1h")
+	maxAge string
 }
 
 func (c caseT) String() string {
+	if c.maxAge != "" {
+		return fmt.Sprintf("table with bad_metrics_max_age = %q, then %s %q", c.maxAge, c.kind, c.cmds)
+	}
 	if len(c.setup) > 0 {
 		return fmt.Sprintf("%s %q after setup %q after=%q", c.kind, c.cmds, c.setup, c.after)
 	}
@@ -477,6 +482,12 @@ func genCases(thorough bool) []caseT {
 	tm("[[rewriter]]\nold = 'a'\nnew = 'b'\nnot = '/(/'\nmax = -1\n")
 	tm("[[blacklist]]\nregex = '('\n")
 	tm("blacklist = ['regex (', 'prefix a', 'bogus']\n")
+	// global settings the table is created with: bad_metrics_max_age (a duration string)
+	for _, age := range []string{"0s", "0", "-1h", "1ns", "9ns", "10ns", "1ms", "2540400h", "x", ""} {
+		if age != "" {
+			out = append(out, caseT{kind: "cmd", cmds: []string{"addBlack prefix zz"}, maxAge: age})
+		}
+	}
 	// accepted entries that turn a validated name into something unusual (empty, with a blank, only
 	// dots) in front of every kind of delivery stage: whatever re-encodes or parses the line again
 	// downstream (pickle, spool, grafanaNet record, ring) must cope with it
@@ -519,9 +530,17 @@ func (e *cmdExec) Body() {
 	aggregator.VerifInit()
 	rand.Seed(7) // backoff jitter
 	log.StandardLogger().ExitFunc = func(code int) { panic(fmt.Sprintf("process exit(%d) through log.Fatal", code)) }
-	tc, err := table.NewTableConfig(filepath.Join(tmpDir, "spool"), "1h", validate.LevelLegacy{Level: m20.MediumLegacy}, validate.LevelM20{Level: m20.MediumM20}, false)
+	maxAge := c.maxAge
+	if maxAge == "" {
+		maxAge = "1h"
+	}
+	tc, err := table.NewTableConfig(filepath.Join(tmpDir, "spool"), maxAge, validate.LevelLegacy{Level: m20.MediumLegacy}, validate.LevelM20{Level: m20.MediumM20}, false)
 	if err != nil {
-		panic(err)
+		if c.maxAge == "" {
+			panic(err)
+		}
+		e.errs = append(e.errs, err.Error()) // refused: fine
+		return
 	}
 	t := table.New(tc)
 	// the first route holds a dispatcher up on request: every follow-up admin operation is applied while a
